@@ -96,7 +96,14 @@ def run(chk: Check) -> None:
             if k in same:
                 chk.ob('TAB-body-handler', bf, norm(v) == same[k], f'{task} body: {k!r} carries the builder\'s {same[k]} (got {norm(v)})', kind=f'value:{k}', expr=str(k))
             elif k == 'process_class':
-                chk.ob('TAB-body-handler', bf, norm(v) == f'loader.identify_object({bf.params[0]})', 'the process class travels as the identifier given by the chosen loader', kind='value:process_class', expr='process_class')
+                # identified by the loader given -- or, where none was given, the default one (through the re-bound parameter or a local)
+                okv = isinstance(v, ast.Call) and last_name(v) == 'identify_object' and [norm(a_) for a_ in v.args] == [bf.params[0]] and isinstance(v.func, ast.Attribute)
+                if okv and norm(v.func.value) != 'loader':
+                    from ..rules import conditional_values as _cv2
+                    from ..facts import is_none as _is_none2
+                    vals_ = _cv2(chk.ctx.facts.analyse(bf), norm(v.func.value)) if isinstance(v.func.value, ast.Name) else []
+                    okv = bool(vals_) and all(norm(x) == 'loader' or (norm(x) == 'loaders.get_object_loader()' and _is_none2(fs, 'loader')) for fs, x in vals_)
+                chk.ob('TAB-body-handler', bf, okv, 'the process class travels as the identifier given by the chosen loader', kind='value:process_class', expr='process_class')
 
     # 3. rejection guards, 4. persist before run / create does not run, 5. loader
     for handler in ('_launch', '_create'):
@@ -123,7 +130,11 @@ def run(chk: Check) -> None:
         if handler == '_create':
             chk.ob('DOM-persist-before-run', hf, not steps, 'a create task never steps the process', kind='create-does-not-run')
             rets = [n for n in cfg.nodes if n.kind == 'return']
-            chk.ob('DOM-persist-before-run', hf, bool(rets) and all(norm(r.ast.value) == 'proc.pid' for r in rets), 'a create task replies with the process id', kind='create-returns-pid')
+            from ..rules import Resolver as _Res
+            res_h = _Res(hf)
+            built = [norm(n.ast.targets[0]) for n in ctor if n.kind == 'stmt' and isinstance(n.ast, ast.Assign) and len(n.ast.targets) == 1 and isinstance(n.ast.targets[0], ast.Name)]
+            ok = bool(rets) and len(built) == 1 and all(r.ast.value is not None and res_h.text(r.ast.value) == res_h.text(ast.Attribute(value=ast.Name(id=built[0], ctx=ast.Load()), attr='pid', ctx=ast.Load())) for r in rets)
+            chk.ob('DOM-persist-before-run', hf, ok, 'a create task replies with the process id', kind='create-returns-pid')
         else:
             ok = bool(steps) and bool(tests) and all(cfg.must_pass(cfg.entry, [s], lambda m: m in tests, edge_ok=no_exc) for s in steps) and all(
                 not (s.id in cfg.reachable([x], edge_ok=no_exc)) for x in steps for s in saves)
@@ -156,7 +167,17 @@ def run(chk: Check) -> None:
             chk.ob('PROV-loader', hf, ok_cls, f'{handler}: on every path the class constructed is {want} (found: {sorted(got)}) -- a class remembered from an earlier task was '
                    'resolved by whichever launcher / loader came first', node=ctor[0].ast, kind='class-from-loader-on-every-path')
             c = [c for c in _calls(ctor[0]) if isinstance(c.func, ast.Name) and c.func.id == 'proc_class'][0]
-            ok = [norm(a) for a in c.args] == ['*init_args'] and [(k.arg, norm(k.value)) for k in c.keywords] == [(None, 'init_kwargs')]
+            # ``*init_args, **init_kwargs`` -- or locals that stand for them with the None case filled in (``args = () if init_args is None else init_args``)
+            from ..rules import conditional_values as _cv
+            from ..facts import is_none as _is_none
+
+            def stands_for(e, param, empties):
+                if norm(e) == param:
+                    return True
+                vals_ = _cv(ff, norm(e)) if isinstance(e, ast.Name) else []
+                return bool(vals_) and all(norm(v) == param or (norm(v) in empties and _is_none(fs, param)) for fs, v in vals_)
+            ok = (len(c.args) == 1 and isinstance(c.args[0], ast.Starred) and stands_for(c.args[0].value, 'init_args', ('()', 'tuple()', '[]'))
+                  and len(c.keywords) == 1 and c.keywords[0].arg is None and stands_for(c.keywords[0].value, 'init_kwargs', ('{}', 'dict()')))
             chk.ob('PROV-loader', hf, ok, f'{handler}: constructed with exactly the task\'s positional and keyword arguments', node=c, kind='ctor-args')
     # nowait
     for handler in ('_launch', '_continue'):
